@@ -17,7 +17,7 @@ inductive Ptr where
   | head               -- &beforeHead_
   | node (id : Nat)    -- an allocated Element
   | null               -- 0
-deriving Repr, BEq, DecidableEq
+deriving Repr, DecidableEq
 
 structure State (α : Type) where
   nodes : List (Nat × α)
@@ -77,7 +77,7 @@ def insertAfter (s : State α) (cur : Ptr) (x : α) : State α :=
   let n := s.fresh
   match posAfter s.nodes cur with
   | some j =>
-    { nodes := s.nodes.insertIdx j (n, x),
+    { nodes := s.nodes.take j ++ (n, x) :: s.nodes.drop j,
       tail := if j ≥ s.nodes.length then .node n else s.tail,
       size := s.size + 1, fresh := n + 1 }
   | none => s
@@ -88,7 +88,7 @@ def deleteNext (watchForTail : Bool) (s : State α) (cur : Ptr) : State α :=
   | some j =>
     match s.nodes[j]? with
     | some nd =>
-      { nodes := s.nodes.eraseIdx j,
+      { nodes := s.nodes.take j ++ s.nodes.drop (j + 1),
         tail := if watchForTail && s.tail == .node nd.1 then cur else s.tail,
         size := s.size - 1, fresh := s.fresh }
     | none => s
@@ -154,7 +154,7 @@ def ptrAt (s : State α) : Nat → Ptr
 structure MIt where
   before : Ptr
   cur : Ptr
-deriving Repr, BEq, DecidableEq
+deriving Repr, DecidableEq
 
 def beginModify (s : State α) : MIt := ⟨.head, next s .head⟩
 def endModify (s : State α) : MIt := ⟨s.tail, .null⟩
@@ -227,5 +227,33 @@ def step (w : World α) (o : Op α) : World α :=
   else w
 
 def run (w : World α) (ops : List (Op α)) : World α := ops.foldl step w
+
+/-! the same history on the abstract sequence; the modify iterator is a position `0 ≤ j ≤ length` -/
+structure Spec (α : Type) where
+  l : List α
+  pos : Option Nat
+
+def specStep (w : Spec α) : Op α → Spec α
+  | .pushBack x => ⟨w.l ++ [x], none⟩
+  | .pushFront x => ⟨x :: w.l, none⟩
+  | .popFront => if 0 < w.l.length then ⟨w.l.tail, none⟩ else w
+  | .clear => ⟨[], none⟩
+  | .insAfter k x => if k < w.l.length then ⟨w.l.take (k + 1) ++ x :: w.l.drop (k + 1), none⟩ else w
+  | .delNext k => if k + 1 < w.l.length then ⟨w.l.take (k + 1) ++ w.l.drop (k + 2), none⟩ else w
+  | .assignSelf => ⟨w.l, none⟩
+  | .assignFrom l => ⟨l, none⟩
+  | .mBegin => ⟨w.l, some 0⟩
+  | .mEnd => ⟨w.l, some w.l.length⟩
+  | .mInc => match w.pos with
+    | some j => if j < w.l.length then ⟨w.l, some (j + 1)⟩ else w
+    | none => w
+  | .mIns x => match w.pos with
+    | some j => ⟨w.l.take j ++ x :: w.l.drop j, some (j + 1)⟩
+    | none => w
+  | .mRem => match w.pos with
+    | some j => if j < w.l.length then ⟨w.l.take j ++ w.l.drop (j + 1), some j⟩ else w
+    | none => w
+
+def specRun (w : Spec α) (ops : List (Op α)) : Spec α := ops.foldl specStep w
 
 end DV.C11.SL
